@@ -29,6 +29,7 @@ R4 (K1 commit point) once the rename phases completed, every continuation on whi
    (the tabled fallible set: mover.*, delete_any, os/shutil/osutils name- or content-changing calls) can fail still
    reaches the metadata update (apply_inventory_delta / _apply_index_changes): a failure while discarding replaced
    content never leaves the metadata describing the old layout.
+R1c a failed mover.rename in either phase is tolerated only for errno.ENOENT; anything else re-raises into the rollback.
 Added while testing against seeded changes: R5 the limbo / removal helpers cloned between bzr/transform.py and
 git/transform.py have equal effect signatures.
 Does not decide: exact restoration for every transform shape; failures of in-memory computation between the phases.
@@ -108,6 +109,30 @@ def run(ctx):
             bad = [norm(c)[:70] for c in calls_in(fn) if call_name(c) in FORBIDDEN]
             nm = len([c for c in calls_in(fn) if call_recv(c) == "mover"])
             ctx.check("R1-journalled-only", where, not bad and nm >= 1, f"all name changes go through the mover ({nm} mover calls, 0 direct)", construct="; ".join(bad), message="direct file-system rename/delete bypasses the journal (cannot be rolled back): " + "; ".join(bad))
+        # ---- R1c: a failed rename is swallowed only for "the source is not there" ------------
+        from ..astutil import fold_module_constants
+
+        for phase in ("_apply_removals", "_apply_insertions"):
+            fnp = fold_module_constants(repo.module(rel).tree, repo.func(rel, f"{cls}.{phase}"))
+            wherep = f"{rel}:{cls}.{phase}"
+            hs = [h for h in ast.walk(fnp) if isinstance(h, ast.ExceptHandler) and h.type is not None and "TransformRenameFailed" in norm(h.type)]
+            for h in hs:
+                swallowed = None
+                for t in ast.walk(h):
+                    if isinstance(t, ast.If) and any(isinstance(r, ast.Raise) and r.exc is None for r in t.body) and isinstance(t.test, ast.Compare) and len(t.test.ops) == 1 and norm(t.test.left).endswith(".errno"):
+                        op, right = t.test.ops[0], t.test.comparators[0]
+                        if isinstance(op, ast.NotEq):
+                            swallowed = {norm(right)}
+                        elif isinstance(op, ast.NotIn):
+                            if isinstance(right, ast.Name):
+                                defs_ = [s_.value for s_ in repo.module(rel).tree.body if isinstance(s_, ast.Assign) and norm(s_.targets[0]) == right.id]
+                                right = defs_[0] if len(defs_) == 1 else right
+                            if isinstance(right, (ast.Tuple, ast.List, ast.Set)):
+                                swallowed = {norm(e) for e in right.elts}
+                reraises_all = any(isinstance(r, ast.Raise) and r.exc is None for r in h.body)
+                ok = reraises_all or swallowed == {"errno.ENOENT"}
+                ctx.check("R1c-rename-failure-aborts", wherep, ok, f"{phase}: a failed mover.rename is tolerated only for errno.ENOENT (nothing at the source); every other failure propagates to the rollback", construct=str(sorted(swallowed) if swallowed is not None else "handler without an errno test"), message=f"{cls}.{phase} swallows a failed rename for {sorted(swallowed) if swallowed else 'any errno'}: an entry that could not be moved (e.g. ENOTDIR: the destination cannot be reached) is skipped, apply() continues and commits the metadata — the tree is left in a mixed state instead of being rolled back")
+            ctx.require(len(hs) >= 1, f"{wherep}: no TransformRenameFailed handler found")
         # ---- R1b: removed contents are always parked through the journal ----------
         fnr = repo.func(rel, f"{cls}._apply_removals")
         gr = build_cfg(fnr)
@@ -163,6 +188,7 @@ def run(ctx):
 
 _OLD_B = "            except BaseException:\n                mover.rollback()\n                raise\n"
 MUTANTS = [
+    Mutant("ENOTDIR tolerated when moving entries into place", BT, "                        # We may be renaming a dangling inventory id\n                        if e.errno != errno.ENOENT:\n", "                        # We may be renaming a dangling inventory id\n                        if e.errno not in (errno.ENOENT, errno.ENOTDIR):\n", expect="R1c-rename-failure-aborts"),
     Mutant("direct os.rename in _apply_insertions (bzr)", BT, "                        mover.rename(self._limbo_name(trans_id), full_path)\n", "                        os.rename(self._limbo_name(trans_id), full_path)\n", expect="R1-journalled-only"),
     Mutant("direct delete in _apply_removals (git)", GT, "                    mover.pre_delete(full_path, delete_path)\n", "                    osutils.delete_any(full_path)\n", expect="R1-journalled-only"),
     Mutant("rollback without reversed", TR, "        for from_, to in reversed(self.past_renames):", "        for from_, to in self.past_renames:", expect="R2-rollback-reversed"),
